@@ -16,7 +16,7 @@ LEVEL = "exploration"
 RULE = ("typed E5 trees from seeded boundary-biased generators given to the Item classes in every constructor form "
         "(scalar, list, bytes, str, int lists, nested lists and dicts for ItemL), reference encodings with forced "
         "1-3 length bytes given to Item.decode, plain Python values given to Item.from_value (all width boundaries "
-        "+-1 enumerated); distinct by (oracle, form, reference bytes); non-trivial when the constructor accepted the value")
+        "+-1 enumerated); distinct by (oracle, form, reference bytes); non-trivial when the constructor accepted the value; plus: items built from a list that the caller changes afterwards")
 ASSUMPTIONS = ["lib/e5ref.py implements SEMI E5 item encoding", "text is restricted to what the item's character set can "
                "represent (latin-1 for A, JIS X 0201 for J)", "float inputs of from_value are recorded but not judged "
                "(the property lists bool, int, str, bytes, list)"]
